@@ -61,6 +61,13 @@ def gen_cases(ctx):
                 if ctx.take(i):
                     yield {"op": op, "dest": dest, "part": part, "nparts": nparts}
                 i += 1
+    # systematic double faults for the short operations: every first error, then every later step of the
+    # run that this first error produces
+    for op in ("init_force", "init_fresh", "reset"):
+        for e1 in ("EIO", "EACCES"):
+            if ctx.take(i):
+                yield {"op": op, "dest": "fresh", "double_all": e1}
+            i += 1
     # sampled double faults
     rng = ctx.grng("double")
     for _ in range(ctx.budget(60, 600)):
@@ -229,8 +236,15 @@ def judge(ctx, case, plan, res, root, pre, post, new_sp, wit):
     # (5) handled errors
     if plan is not None and plan[0] == "err":
         ctx.monitor("error_propagates_or_complete")
-        is_pre = now == pre
-        is_post = now == post
+        def strip(dirs):
+            # an error may leave one stray temporary file next to an intact file (as after a crash, C10);
+            # a call that returns normally may not
+            return {p: {n: {k: v for k, v in snap.items()
+                            if not (os.path.basename(k).startswith("._") or k.endswith("~"))}
+                        for n, snap in d.items()} for p, d in dirs.items()}
+
+        is_pre = now == pre or (res["outcome"] == "raised" and strip(now) == strip(pre))
+        is_post = now == post or (res["outcome"] == "raised" and strip(now) == strip(post))
         if res["outcome"] == "returned":
             if not is_post:
                 wit["diff_p1"] = model.snap_diff(_flat(post["p1"]), _flat(now["p1"]))
@@ -284,7 +298,20 @@ def run_case(ctx, case):
     if judge(ctx, case, None, rec, r1, pre, post, new_sp, wit0):
         return
     plans = []
-    if "double" in case:
+    if "double_all" in case:
+        e1 = faultrun.ERRNOS[case["double_all"]]
+        for st in steps:
+            r = fresh_root(f"d1_{st['k']}")
+            first = faultrun.run(setup, op, r, plan=("errs", [[st["k"], e1]]), include_reads=True)
+            shutil.rmtree(r, ignore_errors=True)
+            if not first.get("fired") or first["steps"] is None:
+                continue
+            for st2 in first["steps"]:
+                if st2["k"] <= st["k"]:
+                    continue
+                for e2name in ("EIO", "EACCES", "ENOSPC"):
+                    plans.append(("errs2", st["k"], e1, st2["k"], faultrun.ERRNOS[e2name], case["double_all"], e2name))
+    elif "double" in case:
         k1, gap, e1, e2 = case["double"]
         if not steps:
             return
@@ -302,7 +329,11 @@ def run_case(ctx, case):
         plans = [p for j, p in enumerate(plans) if j % case["nparts"] == case["part"]]
     for j, plan in enumerate(plans):
         root = fresh_root(f"r{j}")
-        if plan[0] == "err2":
+        if plan[0] == "errs2":
+            res = faultrun.run(setup, op, root, plan=("errs", [[plan[1], plan[2]], [plan[3], plan[4]]]), include_reads=True)
+            fired = res.get("nfired", 0) >= 2
+            judged_plan = ("err", plan[1], plan[2], f"{plan[5]}@{plan[1]}+{plan[6]}@{plan[3]}")
+        elif plan[0] == "err2":
             res = run_double(setup, op, root, plan)
             fired = res.get("fired")
             judged_plan = ("err", plan[1], plan[2], plan[5] + "+" + plan[6])
